@@ -135,7 +135,7 @@ Section Recase.
   Proof.
     induction 1 as [|[o x] r Hx Hr IH]; intros lv sc; cbn [map eval_compare fst snd]; [reflexivity|].
     cbn [snd] in Hx. rewrite Hx. destruct (ev x sc) as [[v| |k|u] sc1]; try reflexivity.
-    destruct (compare_link o lv v) as [[w| |k|u] carried]; try reflexivity.
+    destruct (compare_link o lv v) as [w| |k|u]; try reflexivity.
     destruct (truthy w); [apply IH|reflexivity].
   Qed.
 
